@@ -14,6 +14,7 @@ func init() { cmds["render"] = cmdRender }
 func cmdRender(args []string) error {
 	fs := flag.NewFlagSet("render", flag.ExitOnError)
 	in := fs.String("exprs", "exprs.json", "JSON list of expression trees")
+	sf := fs.String("styles", "", "JSON list of styles (default: six built-in profiles)")
 	fs.Parse(args)
 	b, err := os.ReadFile(*in)
 	if err != nil {
@@ -24,6 +25,16 @@ func cmdRender(args []string) error {
 		return err
 	}
 	styles := []expr.Style{{}, {Sel: "bracket", Lit: "raw"}, {Sel: "pointer", WS: "wide"}, {Sel: "backtick", Lit: "bare", Paren: 1}, {Cont: true, Paren: 2}, {Lit: "dq", WS: "wide", Cont: true}}
+	if *sf != "" {
+		sb, err := os.ReadFile(*sf)
+		if err != nil {
+			return err
+		}
+		styles = nil
+		if err := json.Unmarshal(sb, &styles); err != nil {
+			return err
+		}
+	}
 	type row struct {
 		I     int    `json:"i"`
 		Style int    `json:"style"`
